@@ -51,7 +51,7 @@ theorem setFwd_tcp? (n : NetSt) (f : Nat) (t : Option String) (name : String) : 
 
 /-! ### `tcpSendPacket`, `cancel`, `abortAccept`, `tcpClose` -/
 
-theorem tcpSendPacket_spec (n : NetSt) (now : Int) (name : String) (p : Pkt) (s : TcpSock)
+theorem srv_tcpSendPacket_spec (n : NetSt) (now : Int) (name : String) (p : Pkt) (s : TcpSock)
     (hs : n.tcp? name = some s) :
     (n.tcpSendPacket now name p).1.reg = n.reg ∧
     ∃ s', (n.tcpSendPacket now name p).1.tcp? name = some s' ∧ s'.bound = s.bound ∧ s'.acc = s.acc := by
@@ -62,7 +62,7 @@ theorem tcpSendPacket_spec (n : NetSt) (now : Int) (name : String) (p : Pkt) (s 
   · dsimp only
     exact ⟨rfl, _, setTcp_tcp?_self _ _ _, rfl, rfl⟩
 
-theorem cancel_spec (s : TcpSock) :
+theorem srv_cancel_spec (s : TcpSock) :
     (s.cancel).1.isOpen = s.isOpen ∧ (s.cancel).1.bound = s.bound ∧ (s.cancel).1.acc = s.acc := by
   unfold TcpSock.cancel TcpSock.abortRecv TcpSock.abortSend
   dsimp only
@@ -116,7 +116,7 @@ def tcpCloseB (n : NetSt) (name : String) (e0 : List NEff) : NetSt × List NEff 
     let (s, e1) := s.cancel
     (n.setTcp name s, e0 ++ e1)
 
-theorem tcpClose_eq (n : NetSt) (now : Int) (name : String) (s0 : TcpSock) (hs : n.tcp? name = some s0) :
+theorem srv_tcpClose_eq (n : NetSt) (now : Int) (name : String) (s0 : TcpSock) (hs : n.tcp? name = some s0) :
     n.tcpClose now name = tcpCloseB (tcpCloseA n now name s0).1 name (tcpCloseA n now name s0).2 := by
   unfold NetSt.tcpClose
   simp only [hs]
@@ -130,7 +130,7 @@ theorem tcpCloseA_spec (n : NetSt) (now : Int) (name : String) (s0 : TcpSock) (h
   · exact ⟨rfl, s0, hs, rfl, rfl⟩
   · dsimp only
     split
-    · have h := tcpSendPacket_spec (n.setTcp name { s0 with nextOut := s0.nextOut + 1 }) now name
+    · have h := srv_tcpSendPacket_spec (n.setTcp name { s0 with nextOut := s0.nextOut + 1 }) now name
         { id := s0.nextOut, ty := .err, ec := .eof, len := 0, ovh := 40, hops := (by assumption : Chan).hops ((by assumption : Chan).remoteIdx s0.bound), src := s0.bound.toString }
         _ (setTcp_tcp?_self _ _ _)
       exact h
@@ -144,12 +144,12 @@ theorem tcpCloseB_spec (n : NetSt) (name : String) (e0 : List NEff) (s : TcpSock
   refine ⟨?_, _, setTcp_tcp?_self _ _ _, ?_⟩
   · rw [setTcp_reg]
     cases s.fwd <;> dsimp only <;> (try rw [setFwd_reg]) <;> split <;> rfl
-  · have h := cancel_spec { s with chan := none, bound := {}, isOpen := false, fwd := none, mss := 1475, cwnd := 2950, inFlight := 0, outstanding := [], inq := [], reorder := [], resend := [], recvNull := false, nextIn := 0, nextOut := 0, lastDrop := 0 }
+  · have h := srv_cancel_spec { s with chan := none, bound := {}, isOpen := false, fwd := none, mss := 1475, cwnd := 2950, inFlight := 0, outstanding := [], inq := [], reorder := [], resend := [], recvNull := false, nextIn := 0, nextOut := 0, lastDrop := 0 }
     exact ⟨h.1, h.2.1, h.2.2⟩
-theorem tcpClose_spec (n : NetSt) (now : Int) (name : String) (s0 : TcpSock) (hs : n.tcp? name = some s0) :
+theorem srv_tcpClose_spec (n : NetSt) (now : Int) (name : String) (s0 : TcpSock) (hs : n.tcp? name = some s0) :
     (n.tcpClose now name).1.reg = (if !s0.bound.isDefault then { n.reg with tcp := simUnbind n.reg.tcp name s0.bound } else n.reg) ∧
     ∃ s', (n.tcpClose now name).1.tcp? name = some s' ∧ s'.isOpen = false ∧ s'.bound = {} ∧ s'.acc = s0.acc := by
-  rw [tcpClose_eq n now name s0 hs]
+  rw [srv_tcpClose_eq n now name s0 hs]
   obtain ⟨hreg, s1, hs1, hb1, ha1⟩ := tcpCloseA_spec n now name s0 hs
   obtain ⟨hreg2, s2, hs2, ho2, hb2, ha2⟩ := tcpCloseB_spec (tcpCloseA n now name s0).1 name (tcpCloseA n now name s0).2 s1 hs1
   refine ⟨?_, s2, hs2, ho2, hb2, ha2.trans ha1⟩
@@ -216,7 +216,7 @@ theorem accCheckB_noop (n : NetSt) (now : Int) (name : String) (e0 : List NEff) 
       rw [this] at hop'
       cases hop'
 
-theorem accCheckQueue_closed (n : NetSt) (now : Int) (name : String) (s : TcpSock)
+theorem srv_accCheckQueue_closed (n : NetSt) (now : Int) (name : String) (s : TcpSock)
     (hs : n.tcp? name = some s) (ho : s.isOpen = false) :
     (n.accCheckQueue now name).1.reg = n.reg ∧
     ∃ s', (n.accCheckQueue now name).1.tcp? name = some s' ∧ s'.isOpen = false ∧ s'.bound = s.bound ∧
@@ -261,8 +261,8 @@ theorem accClose_spec (n : NetSt) (now : Int) (name : String) (s : TcpSock) (hs 
     simp only [hs]
     rfl
   obtain ⟨_, h2, h3, _⟩ := abortAccept_spec s1
-  obtain ⟨hreg, s3, hs3, ho3, hb3, ha3⟩ := tcpClose_spec (n.setTcp name s1.abortAccept.1) now name _ (setTcp_tcp?_self _ _ _)
-  obtain ⟨hreg4, s4, hs4, ho4, hb4, hl4⟩ := accCheckQueue_closed _ now name s3 hs3 ho3
+  obtain ⟨hreg, s3, hs3, ho3, hb3, ha3⟩ := srv_tcpClose_spec (n.setTcp name s1.abortAccept.1) now name _ (setTcp_tcp?_self _ _ _)
+  obtain ⟨hreg4, s4, hs4, ho4, hb4, hl4⟩ := srv_accCheckQueue_closed _ now name s3 hs3 ho3
   rw [hE]
   refine ⟨?_, s4, hs4, ho4, ?_, hb4.trans hb3⟩
   · rw [hreg4, hreg, h2, hs1b]; rfl
